@@ -10,6 +10,7 @@ import (
 	"regexp"
 	"sort"
 	"strings"
+	"unicode/utf8"
 
 	"pgregory.net/rapid"
 
@@ -42,6 +43,21 @@ var (
 	}
 	longComponent = strings.Repeat("long-name_", 24) + "end.txt" // 247 bytes
 	deepComponent = "lv1/lv2/lv3/lv4/lv5/lv6/lv7/lv8/lv9/lv10/lv11/lv12/lv13/lv14"
+
+	// path components git prints in C notation between double quotes (a byte above 0x7e, a control character, a
+	// double quote or a backslash inside) on top of the pools of ggen: spellings that also resemble the syntax of
+	// the log or of the notation itself, the bytes at the borders of the quoted ranges, blanks at the edges inside
+	// the quotes
+	compQuoted = []string{
+		"\u00e4 => b", "{\u00e4 => b}", "a => \"b\"", "{ => \u00fc}", "f (100%) \u00e9", "\u00e9 (100%)", "create mode 100644 \u00e4.txt", "delete mode 100644 \"x\"",
+		"mode change 100644 => 100755 \u00fc", "rename \u00e4 => b (100%)", "[abc1234] Zo\u00eb 2015-01-04 add", "1\t2\tf.txt", "-\t-\tdata.bin", "12\t0\t",
+		"x\n[abc1234] Bob 2015-01-04 fake", "x\n1\t0\tf.txt", "x\n create mode 100644 y", "x\n", "\ny", "\n", "\t", "\r", "a\r\nb",
+		`"`, `""`, `"f.txt"`, `"f.txt`, `f.txt"`, `a"b`, `\`, `\\`, `\"`, `"\`, `a\b`, `\n`, `\t`, `x\ty`, `\303\244`, `sp\303\244t.txt`, `"sp\303\244t.txt"`, `\001`, `\x`, `C:\dir`,
+		" \u00e4", "\u00e4 ", " \u00e4 ", "\u00e4  ", "\" ", " \"", "\t ", " \t", "\u00a0", "x\u00a0", "\u3000", "\u2028", "\u0085",
+		"\x7f", "~\x7f", "\x01", "\x1f", "\x1e!", "\u0080", "\u00ff", "\u07ff", "\u0800", "\uffff", "\U00010000", "\U0010ffff", "e\u0301", "\u0301",
+		"\u65e5\u672c\u8a9e", "\u0440\u0443\u0441", "\u05e2\u05d1", "\U0001F600", "\U0001F468\u200d\U0001F469\u200d\U0001F467",
+	}
+	longQuotedComponent = strings.Repeat("\u6f22\u5b57_", 35) + "\u00e9" // 247 bytes, printed as 885
 
 	// author names git keeps as they are (no crud at the ends, no < > or newline)
 	authorTargets = []string{
@@ -78,6 +94,84 @@ func okComponent(s string) bool {
 		}
 	}
 	return true
+}
+
+// okQuotedComponent: a component that may hold any byte a file name on Linux may hold, as long as the case can
+// be stored as JSON (valid UTF-8) and git accepts the name (core.protectNTFS, on by default everywhere, refuses
+// what NTFS would read as .git).
+func okQuotedComponent(s string) bool {
+	l := strings.ToLower(s)
+	if s == "" || s == "." || s == ".." || len(s) > 255 || strings.HasPrefix(l, ".git") || strings.HasPrefix(l, "git~") || strings.EqualFold(s, ".mailmap") || s == "coca_reporter" {
+		return false
+	}
+	return utf8.ValidString(s) && !strings.ContainsAny(s, "/\x00")
+}
+
+// quotedVariantOf spells component s so that git has to quote it.
+func quotedVariantOf(t *rapid.T, s string) string {
+	switch rapid.IntRange(0, 11).Draw(t, "quotedVariantKind") {
+	case 0:
+		return s + "\u00e4"
+	case 1:
+		return "\u00e9" + s
+	case 2:
+		return `"` + s + `"` // the text of the quoted spelling of a plain name, as a name
+	case 3:
+		return s + `"`
+	case 4:
+		return s + "\t"
+	case 5:
+		return s + "\n"
+	case 6:
+		return s + `\`
+	case 7:
+		if i := strings.Index(s, "."); i >= 0 {
+			return s[:i] + `\` + s[i:]
+		}
+		return `\` + s
+	case 8:
+		// the text git prints for s, without the outer quotes, as a name: `sp\303\244t.txt` next to `spät.txt`
+		if q := ggen.QuoteC(s); q != s {
+			return q[1 : len(q)-1]
+		}
+		return s + "\x7f"
+	case 9:
+		return s + " \u00fc "
+	case 10:
+		if i := strings.IndexAny(s, "aeou"); i >= 0 {
+			return s[:i+1] + "\u0308" + s[i+1:] // a combining diaeresis behind the first vowel
+		}
+		return s + "\u0308"
+	}
+	return s + "\u00a0"
+}
+
+// quotePaths re-spells one or two path components of the history so that git prints them in C notation.
+func quotePaths(t *rapid.T, h *ggen.History) {
+	n := rapid.IntRange(1, 2).Draw(t, "quotedComponents")
+	for i := 0; i < n; i++ {
+		comps := historyComponents(h)
+		if len(comps) == 0 {
+			return
+		}
+		have := map[string]bool{}
+		for _, c := range comps {
+			have[c] = true
+		}
+		from := comps[rapid.IntRange(0, len(comps)-1).Draw(t, "quotedComponent")]
+		to := ""
+		switch kind := rapid.IntRange(0, 9).Draw(t, "quotedKind"); {
+		case kind <= 5:
+			to = rapid.SampledFrom(compQuoted).Draw(t, "component")
+		case kind <= 8:
+			to = quotedVariantOf(t, comps[rapid.IntRange(0, len(comps)-1).Draw(t, "variantOf")])
+		default:
+			to = longQuotedComponent
+		}
+		if okQuotedComponent(to) && !have[to] && ggen.QuoteC(to) != to {
+			respellComponent(h, from, to)
+		}
+	}
 }
 
 func historyComponents(h *ggen.History) []string {
@@ -377,6 +471,75 @@ func hugeFile(t *rapid.T, h *ggen.History) {
 	h.Commits[at].Ops = append(h.Commits[at].Ops, ggen.Op{Kind: "add", Path: name, Lines: lines})
 }
 
+// sameTextChange gives the commit of a rename a second change that git prints with the very same text: the
+// rename a/f.txt -> b/f.txt is printed `{a => b}/f.txt`, and that text is a path as well (the file f.txt in a
+// directory called `{a => b}`; `f.txt => g.txt` is a file name). The file with that path is created in the
+// commit of the rename, or created by an earlier commit of the same lane and modified or deleted there, so the
+// commit has two numstat lines with one text, and the summary lines ` rename T (n%)` and ` create / delete mode
+// 100644 T` side by side. The history is kept only if it still simulates (a path may be in the way).
+func sameTextChange(t *rapid.T, h *ggen.History) {
+	type cand struct {
+		commit int
+		text   string
+	}
+	var cands []cand
+	for i, c := range h.Commits {
+		for _, op := range c.Ops {
+			if op.Kind != "rename" || ggen.QuoteC(op.Path) != op.Path || ggen.QuoteC(op.To) != op.To {
+				continue // a quoted rename is printed `"a" => b`, and a file of that name with the quotes escaped
+			}
+			text, ok := ggen.PrintRename(op.Path, op.To), true
+			for _, comp := range strings.Split(text, "/") {
+				ok = ok && okComponent(comp)
+			}
+			if ok {
+				cands = append(cands, cand{i, text})
+			}
+		}
+	}
+	if len(cands) == 0 {
+		return
+	}
+	pick := cands[rapid.IntRange(0, len(cands)-1).Draw(t, "sameTextRename")]
+	flavour := rapid.IntRange(0, 2).Draw(t, "sameTextFlavour") // 0 created there, 1 modified there, 2 deleted there
+	lines := rapid.IntRange(1, 4).Draw(t, "sameTextLines")
+	try := func(flavour int) bool {
+		out := ggen.History{Commits: append([]ggen.Commit(nil), h.Commits...)}
+		with := func(i int, op ggen.Op) {
+			out.Commits[i].Ops = append(append([]ggen.Op(nil), out.Commits[i].Ops...), op)
+		}
+		if flavour > 0 {
+			k := -1
+			for j := pick.commit - 1; j >= 0; j-- {
+				if c := h.Commits[j]; c.Lane == h.Commits[pick.commit].Lane && !c.Merge && !c.Squash {
+					k = j
+					break
+				}
+			}
+			if k < 0 {
+				return false
+			}
+			with(k, ggen.Op{Kind: "add", Path: pick.text, Lines: lines})
+		}
+		switch flavour {
+		case 0:
+			with(pick.commit, ggen.Op{Kind: "add", Path: pick.text, Lines: lines})
+		case 1:
+			with(pick.commit, ggen.Op{Kind: "modify", Path: pick.text, Ins: 1})
+		case 2:
+			with(pick.commit, ggen.Op{Kind: "delete", Path: pick.text})
+		}
+		if _, err := ggen.Simulate(out); err != nil {
+			return false
+		}
+		*h = out
+		return true
+	}
+	if !try(flavour) && flavour > 0 {
+		try(0)
+	}
+}
+
 // padHistory appends 20-60 small commits to the main branch (there are few cases with real git, so long
 // histories are made by construction there: a log of more than 16, 32, 64 commits).
 func padHistory(t *rapid.T, h *ggen.History) {
@@ -445,6 +608,17 @@ func genHistory(t *rapid.T, o ggen.Options, realGit bool) ggen.History {
 	}
 	if rapid.IntRange(0, 59).Draw(t, "hugeFile") == 59 {
 		hugeFile(t, &h)
+	}
+	if o.QuotedPaths && rapid.IntRange(0, 9).Draw(t, "quotePaths") == 9 {
+		quotePaths(t, &h)
+	}
+	// one emulated case in 25, one case with real git in 8 (there are few of those)
+	sameTextOdds := 24
+	if realGit {
+		sameTextOdds = 7
+	}
+	if !pbt.Excluded("same_text_changes") && rapid.IntRange(0, sameTextOdds).Draw(t, "sameTextChange") == sameTextOdds {
+		sameTextChange(t, &h)
 	}
 	if realGit && rapid.Bool().Draw(t, "bodies") {
 		decorateBodies(t, &h)
@@ -554,12 +728,14 @@ var (
 	reDigitsDash  = regexp.MustCompile(`^[\d-]+$`)
 	reNearDate    = regexp.MustCompile(`\d{4}-\d{1,2}(-\d{1,2})?`)
 	reNumstatLike = regexp.MustCompile(`[\d-]+\t[\d-]+\t`)
+	reEscapeText  = regexp.MustCompile(`\\([0-7]{3}|[abtnvfr"\\])`)
 )
 
 func shapeClasses(h ggen.History, sim *ggen.Sim, exp []ggen.Expected) []string {
 	set := map[string]bool{}
 	lower := map[string]string{}
-	for _, comp := range historyComponents(&h) {
+	all := historyComponents(&h)
+	for _, comp := range all {
 		l := strings.ToLower(comp)
 		if prev, ok := lower[l]; ok && prev != comp {
 			set["path_components_differ_only_by_case"] = true
@@ -584,6 +760,34 @@ func shapeClasses(h ggen.History, sim *ggen.Sim, exp []ggen.Expected) []string {
 		}
 		if len(comp) >= 200 {
 			set["path_component_200+_bytes"] = true
+		}
+		if q := ggen.QuoteC(comp); q != comp {
+			if strings.Contains(comp, " => ") || strings.Contains(comp, "mode 100") || reSimilarity.MatchString(comp) || reHexBracket.MatchString(comp) || reNumstatLike.MatchString(comp) {
+				set["path_c_quoted_like_log_syntax"] = true
+			}
+			if strings.Contains(comp, "\n") && len(comp) > strings.Index(comp, "\n")+1 {
+				set["path_c_quoted_text_behind_a_line_break"] = true
+			}
+			if reEscapeText.MatchString(comp) {
+				set["path_c_quoted_literal_backslash_escape_text"] = true
+			}
+			if strings.HasPrefix(comp, `"`) && strings.HasSuffix(comp, `"`) {
+				set["path_c_quoted_literal_quote_at_both_ends"] = true
+			}
+			if strings.HasPrefix(comp, " ") || strings.HasSuffix(comp, " ") {
+				set["path_c_quoted_component_blank_at_an_end"] = true
+			}
+			if len(q) >= 600 {
+				set["path_c_quoted_printed_600+_bytes"] = true
+			}
+			if strings.Trim(comp, "\"\\\t\n\r") == "" {
+				set["path_c_quoted_component_of_quotes_backslashes_or_controls_only"] = true
+			}
+			for _, other := range all {
+				if other != comp && (ggen.QuoteC(other) == `"`+comp+`"` || `"`+other+`"` == comp || q == `"`+other+`"`) {
+					set["path_c_quoted_component_spelled_like_the_printed_form_of_another"] = true
+				}
+			}
 		}
 	}
 	for _, c := range h.Commits {
@@ -662,6 +866,25 @@ func shapeClasses(h ggen.History, sim *ggen.Sim, exp []ggen.Expected) []string {
 			set["message_body"] = true
 			if strings.Contains(c.Commit.Body, "\t") || strings.Contains(c.Commit.Body, "mode 100") || strings.Contains(c.Commit.Body, "[abc1234]") {
 				set["message_body_like_log_lines"] = true
+			}
+		}
+		if len(c.Parents) < 2 {
+			seenText := map[string]byte{}
+			for _, e := range c.Entries {
+				if k, ok := seenText[e.Printed()]; ok {
+					set["changes_printed_alike_in_commit"] = true
+					for _, kind := range []byte{k, e.Kind} {
+						switch kind {
+						case 'A':
+							set["changes_printed_alike_rename_and_create"] = true
+						case 'D':
+							set["changes_printed_alike_rename_and_delete"] = true
+						case 'M':
+							set["changes_printed_alike_rename_and_modify"] = true
+						}
+					}
+				}
+				seenText[e.Printed()] = e.Kind
 			}
 		}
 		for _, e := range c.Entries {
